@@ -334,7 +334,6 @@ func c02Concurrent(m *mon.M, ps []string) {
 					plans[g] = append(plans[g], o)
 				}
 			}
-			reported := false
 			for _, pass := range concPasses {
 				if pass.singleP { // same operations again, all goroutines on one P
 					for g := range plans {
@@ -365,15 +364,12 @@ func c02Concurrent(m *mon.M, ps []string) {
 							}
 						default:
 							m.Count(path+"_concurrent_valid_opens:"+kindName(kind), 1)
-							if o.err != nil || !bytes.Equal(o.out, o.want) {
-								// acceptance of authentic input is C01's clause; here it only means the
-								// concurrent tamper experiment ran next to failing valid Opens
-								m.Count(path+"_concurrent_valid_open_failed:"+kindName(kind), 1)
-								if reported {
-									continue
-								}
-								reported = true
-								m.Inconclusive(fmt.Sprintf("shared-aead-concurrent: a valid %s Open failed on %s while other goroutines used the same AEAD value (C01's clause; key=%s nonce=%s)", kindName(kind), path, mon.FullHex(key), mon.FullHex(o.nonce)))
+							switch {
+							case o.err != nil:
+								// rejecting an authentic message under concurrency is a defect of the same Open code
+								m.Violation("concurrent-shared-aead:open-rejected-valid:"+kindName(kind), concWitness(kind, path, key, g, o))
+							case !bytes.Equal(o.out, o.want):
+								m.Violation("concurrent-shared-aead:open-mismatch:"+kindName(kind), concWitness(kind, path, key, g, o))
 							}
 						}
 					}
